@@ -15,6 +15,10 @@ AREAS = {
     "dupsort": {"branches": [1, 2, 3, 4, 10, 11, 12, 13, 20, 21], "shard": 150,
                 "explain": "(fun c => match c with DEnc e _ => kobs_of (enc_one e) | DDec e _ => kobs_of (dec_one e) | DEncList l _ => match hack_encode l with Ok (e :: _) => KOk e | _ => KErr 4 end end)",
                 "default_case": "(DEncList [] None)"},
+    "instance": {"branches": [2, 4, 5, 6, 12, 13, 14, 15, 16, 31, 33, 41, 42], "shard": 60,
+                 "explain": "imodel", "default_case": "(ISendCase (mkICfg true true false false false) (mkEnv [] 0) 0 0 IPanic)"},
+    "syncloop": {"branches": [2, 3, 7, 102, 103, 107], "shard": 12,
+                 "explain": "lexplain", "default_case": "(mkLC (mkICfg true true false false false) (mkEnv [] 0) [] 0 [] (mkEnv [] 0))"},
 }
 
 PROPS = {
@@ -31,7 +35,7 @@ PROPS = {
                             "integer-key DBIs hold keys of one width (2, 4 or 8 bytes), as LMDB requires",
                             "the legacy strategies Put, Append, IterPut, Pick are out of scope (nothing calls them)"],
             "trusted_base": [LMDB_TRUST, "modelled: lmdbenv/strategy update.go, iterupdate.go, utils.go (iterBoth, setNewVal, cmpIntegerLittleEndian, bytesToInt), emptyput.go + doPut"]},
-    "C11": {"seed": 11, "areas": [("shadow", 500), ("strategy", 300)], "thorough_mult": 8,
+    "C11": {"seed": 11, "areas": [("shadow", 500), ("strategy", 300), ("syncloop", 60)], "thorough_mult": 8,
             "assumptions": ["steady state: stored shadow timestamps are below the time of detection (monotone clock, the documented operating assumption)",
                             "one DBI at a time; composition over DBIs and with the merge step is in the Instance model (C01/C03)",
                             "known finding F6: live entries with an EMPTY application value are not projected (C11_empty_value_refuted)"],
@@ -40,6 +44,26 @@ PROPS = {
             "assumptions": ["DUPSORT values are at most 511 bytes (LMDB limit)",
                             "the mirror-cycle clause is checked on the real code by the harness oracle and on the model by the correspondence (ShCaptureDup/ShProjectDup); its Coq theorem is not finished (see DESIGN.md)"],
             "trusted_base": [LMDB_TRUST, "modelled: syncer/dupsorthack.go, the DUPSORT paths of syncer/shadow.go, strategy.EmptyPut"]},
+    "C18": {"seed": 18, "areas": [("instance", 360)], "thorough_mult": 8,
+            "assumptions": ["rollback of an aborted write transaction and isolation from concurrent readers are LMDB's (trusted); a full map (MDB_MAP_FULL) surfaces as an error from a put like any other error",
+                            "dbi_options.override_create_flags unset"],
+            "trusted_base": [LMDB_TRUST, "modelled: syncer/sync.go LoadOnce transaction body, snapshot/transforms.go ValidateTransform, NewNativeIterator gates, strategy.Update, mainToShadow/shadowToMain over all DBIs"]},
+    "C06": {"seed": 6, "areas": [("instance", 360), ("syncloop", 60)], "thorough_mult": 8,
+            "assumptions": ["'as of one single LMDB transaction' rests on LMDB snapshot isolation (trusted): the dump is a function of one environment value",
+                            "values up to a few hundred bytes in the correspondence; megabyte values are not exercised"],
+            "trusted_base": [LMDB_TRUST, "modelled: syncer/send.go SendOnce transaction body, readDBI, ReadDBINames order; names/metadata compared by the oracle, name format is C15"]},
+    "C10": {"seed": 10, "areas": [("instance", 300), ("syncloop", 96)], "thorough_mult": 6,
+            "assumptions": ["tomb sweeper disabled (a sweeper transaction is a local writer and triggers a snapshot by design, config.go:254-256)",
+                            "fleet-level bound follows from the per-instance statements: after the last application write each instance uploads at most once more per load that found a local change"],
+            "trusted_base": [LMDB_TRUST, "Instance/Ids.v abstracts the loop's id bookkeeping; it is evaluated next to the executable machine (Instance/SyncLoop.v), which is compared with the real syncLoop through the verif yield hooks"]},
+    "C03": {"seed": 3, "areas": [("syncloop", 120), ("shadow", 200), ("merge", 300)], "thorough_mult": 6,
+            "assumptions": ["known finding F8: an application commit between an empty own write transaction and the following env.Info() (C03_refuted)",
+                            "shadow mode records CHANGES between two captures: writing a value back, or creating and deleting a key between two captures, leaves nothing to record",
+                            "empty application values: known finding F6 (reported under C11)"],
+            "trusted_base": [LMDB_TRUST, "Instance/Ids.v (abstract id bookkeeping, all interleavings) + Instance/SyncLoop.v (executable loop) compared with the real syncLoop via yield hooks"]},
+    "C09": {"seed": 9, "areas": [("syncloop", 144)], "thorough_mult": 6,
+            "assumptions": ["known finding F8 (C09_refuted)", "Store failures below the retry budget (StorageRetryCount) are retried; exhausting it makes the loop return (the process restarts and uploads at start-up)"],
+            "trusted_base": [LMDB_TRUST, "Instance/Ids.v + Instance/SyncLoop.v as for C03"]},
 }
 
 # fragments: bin/props.d/*.py may define AREAS_ADD / PROPS_ADD
